@@ -524,6 +524,9 @@ def parse_equation_terms(equation: str) -> List[Term]:
             term = term._replace(type=new_type)
         return term
 
+    if '=' not in equation:
+        raise ParserError(f"Failed to find an equals sign ('=') in: '{equation}'")
+
     left, right = equation.split('=', maxsplit=1)
 
     try:
